@@ -42,6 +42,13 @@ def solve_law_for_y(mix, case, kw, mode, pf, J, P):
     best = None
     for basis in (("weight", "molar") if mode[0] == "p" else ("weight",)):
         y0, y1 = yJ, min(max(yJ + 1e-4, 1e-9), 1 - 1e-9)
+        scale = [P[i] * (abs(pf[i]) + 1e-300) for i in (0, 1)]
+        try:
+            r = resid(yJ, basis)
+            if abs(r[0]) <= 1e-10 * scale[0] and abs(r[1]) <= 1e-10 * scale[1]:
+                return yJ  # the fluxes' own composition satisfies the law (the law may be insensitive to y: no unique root)
+        except Exception:  # noqa: BLE001
+            pass
         try:
             f0, f1 = resid(y0, basis)[0], resid(y1, basis)[0]
             for it in range(60):
